@@ -5,7 +5,7 @@
 //! scenario itself compares every result across threads and with a post-join
 //! sequential evaluation.
 //!
-//! usage: miri-scn <shared-eval|lazy-holidays|sun-coords> <workload seed>
+//! usage: miri-scn <shared-eval|lazy-holidays|sun-coords|many-threads> <workload seed>
 //! (scenario and workload seed come through argv, never through plain env)
 
 use std::sync::Arc;
@@ -248,6 +248,40 @@ fn sun_coords(seed: u64) -> Result<String, String> {
     Ok(format!("{}", expected.iter().flatten().map(|s| s.len()).sum::<usize>()))
 }
 
+/// Many more threads than cores inside the same few evaluations at once (any fixed-size pool of buffers, slots
+/// or permits is exhausted): every result must equal the sequential one.
+fn many_threads(seed: u64) -> Result<String, String> {
+    let mut rng = Rng(seed);
+    let n = 18 + rng.below(5) as usize;
+    let exprs = ["Mo-Fr 09:00-12:00,13:00-17:00; Sa 10:00-12:00,12:00-14:00", "Mo-Su 10:00-12:00, 11:00-14:00 unknown, 13:30-16:00", "Mo-Fr 08:00-10:00,10:00-12:00,12:00-13:00 \"x\""];
+    let e = exprs[rng.below(3) as usize];
+    let oh = Arc::new(OpeningHours::parse(e).unwrap());
+    let days: Vec<NaiveDate> = (0..3).map(|i| NaiveDate::from_ymd_opt(2024, 3, 4 + i + rng.below(3) as u32).unwrap()).collect();
+    let render = |oh: &OpeningHours, d: NaiveDate| -> String { oh.schedule_at(d).into_iter().map(|r| format!("[{}-{} {:?} {:?}]", r.range.start, r.range.end, r.kind, r.comments)).collect() };
+    let expected: Vec<String> = days.iter().map(|d| render(&oh, *d)).collect();
+    let handles: Vec<_> = (0..n)
+        .map(|i| {
+            let (oh, days) = (oh.clone(), days.clone());
+            thread::spawn(move || days.iter().cycle().skip(i % 3).take(3).map(|d| (*d, oh.schedule_at(*d).into_iter().map(|r| format!("[{}-{} {:?} {:?}]", r.range.start, r.range.end, r.kind, r.comments)).collect::<String>())).collect::<Vec<_>>())
+        })
+        .collect();
+    for (i, h) in handles.into_iter().enumerate() {
+        for (d, got) in h.join().map_err(|_| "thread panicked".to_string())? {
+            let want = &expected[days.iter().position(|x| *x == d).unwrap()];
+            if &got != want {
+                return Err(format!("thread {i} of {n}, {d}: concurrent schedule {got}, sequential {want}"));
+            }
+        }
+    }
+    for (d, want) in days.iter().zip(&expected) {
+        let got = render(&oh, *d);
+        if &got != want {
+            return Err(format!("{d}: schedule after the threads joined {got}, before them {want}"));
+        }
+    }
+    Ok(format!("{n}"))
+}
+
 fn main() {
     let args: Vec<String> = std::env::args().collect();
     let scenario = args.get(1).map(|s| s.as_str()).unwrap_or("shared-eval");
@@ -256,8 +290,9 @@ fn main() {
         "shared-eval" => shared_eval(seed),
         "lazy-holidays" => lazy_holidays(seed),
         "sun-coords" => sun_coords(seed),
+        "many-threads" => many_threads(seed),
         _ => {
-            eprintln!("usage: miri-scn <shared-eval|lazy-holidays|sun-coords> <workload seed>");
+            eprintln!("usage: miri-scn <shared-eval|lazy-holidays|sun-coords|many-threads> <workload seed>");
             std::process::exit(2)
         }
     };
